@@ -779,7 +779,7 @@ spiftool_version_compare(spif_charptr_t v1, spif_charptr_t v2)
             D_CONF(("     -> Comparing as integers %d vs. %d\n", (int) ival1, (int) ival2));
 
             /* Compare the integers and return if not equal. */
-            c = SPIF_CMP_FROM_INT(ival1 - ival2);
+            c = SPIF_CMP_FROM_INT((ival1 > ival2) - (ival1 < ival2));
             if (!SPIF_CMP_IS_EQUAL(c)) {
                 D_CONF(("     -> %d\n", (int) c));
                 return c;
